@@ -59,7 +59,15 @@ var specPool = []string{
 	"grammar c5;\nstart = \"[0-9]+\" \"a|b\" \"x?\";\n",
 	"grammar c6;\nP = /a|b/\nQ = /x?y/\nstart = P Q;\n",
 	"grammar c7;\nP = \"a|b\"\nstart = P;\n",
+	// conflict reports name synthesised rules: they must not depend on what was processed before
+	"grammar d1;\nNUM = /[0-9]+/\nstart = expr;\nexpr = expr ( \"+\" | \"-\" ) expr | NUM;\n",
+	"grammar d2;\nstart = s;\ns = ( \"i\" s | \"i\" s \"e\" s ) | \"x\" { \"y\" \"z\" };\n",
+	"grammar d3;\nNUM = /[0-9]+/\n@left \"+\"\nstart = expr;\nexpr = expr \"+\" expr | ( \"(\" expr \")\" ) | NUM [ \"!\" \"!\" ];\n",
 }
+
+// lalrPool names the pool specifications whose LALR(1) table (or conflict report) is part of the signature; the
+// others include grammars for which the dependency's construction panics depending on iteration order (listed finding).
+var lalrPool = map[string]bool{"a5": true, "a6": true, "b3": true, "d1": true, "d2": true, "d3": true}
 
 var patternPool = []string{
 	"a", "ab|c", "[a-f]+", "[^a-f]", "[0-9][0-9]*", `\d+(\.\d+)?`, "[[:alpha:]_][[:alnum:]_]*", "(a|b)*abb", "a{2,4}", "(ab){2}c", "x?y*z+", ".", `\w+`, `[\x41-\x5A\x00E9]`,
@@ -97,6 +105,17 @@ func specSignature(src string) string {
 				}
 				sort.Strings(owners)
 				fmt.Fprintf(&b, "dfa states=%d owners=%s transitions=%x\n", len(d.States()), strings.Join(owners, " "), sha256.Sum256([]byte(d.String())))
+			}
+		}
+		if err == nil && lalrPool[sp.Name] {
+			T, terr := sp.LALRParsingTable()
+			switch {
+			case terr != nil:
+				fmt.Fprintf(&b, "lalr-error: %s\n", posRe.ReplaceAllString(terr.Error(), "<pos>"))
+			case T == nil:
+				fmt.Fprintf(&b, "lalr: nil table\n")
+			default:
+				fmt.Fprintf(&b, "lalr: %x\n", sha256.Sum256([]byte(T.String())))
 			}
 		}
 		g, err := east.Parse("pool.ebnf", strings.NewReader(src))
